@@ -375,3 +375,40 @@ def r4(ctx: Ctx) -> None:
     want = ("set", ("a", s_, "L"), ("c", ("g", "Literal"), (("a", lit, "v"), ("a", lit, "s")), ()))
     if want not in cg:
         ctx.report(g.where, "literal-shared", "Term.__init__ keeps a reference to the caller's Literal: the in-place sign flip of the normal form would change the caller's literal", lineno=g.node.lineno)
+
+
+@rule("C16", "R7.terms-enter-by-addition", "WHO-MAY-CONSTRUCT",
+      "an expression gets its terms only through Expr.__add__, the one place where a term is normalised (negative coefficient -> "
+      "complemented literal, zero coefficient dropped, opposite polarities merged): every construction Expr(c, table) in "
+      "tools/rect hands over the table of an existing expression (x.t, possibly copied), never a table put together on the spot",
+      floor=2)
+def r7_builder(ctx: Ctx) -> None:
+    n = 0
+
+    def table_of_an_expression(e) -> bool:
+        if isinstance(e, ast.Attribute) and e.attr == "t":
+            return True
+        if isinstance(e, ast.Call) and call_name(e) in ("dict", "copy", "deepcopy") and len(e.args) == 1 and not e.keywords:
+            return table_of_an_expression(e.args[0])
+        if isinstance(e, ast.Call) and isinstance(e.func, ast.Attribute) and e.func.attr == "copy" and not e.args:
+            return table_of_an_expression(e.func.value)
+        if isinstance(e, ast.Dict) and e.keys == [None] and len(e.values) == 1:
+            return table_of_an_expression(e.values[0])
+        return False
+    for f in ctx.model.all_functions(include_inlined=True):
+        if not f.module.relpath.startswith("tools/rect/"):
+            continue
+        for c in walk_own(f.node):
+            if isinstance(c, ast.Call) and call_name(c) == "Expr":
+                tab = c.args[1] if len(c.args) >= 2 else next((k.value for k in c.keywords if k.arg in ("t", "terms", "table")), None)
+                if any(isinstance(a, ast.Starred) for a in c.args) or any(k.arg is None for k in c.keywords):
+                    tab = c
+                if tab is None:
+                    continue
+                n += 1
+                ctx.site(f.where, "Expr(c, table): the table is that of an existing expression", table=ast.unparse(tab)[:60])
+                if not table_of_an_expression(tab):
+                    ctx.report(f.where, f"terms-built-directly {ast.unparse(tab)[:60]}", f"{f.qualname} builds an expression from a term table put together on the spot "
+                               f"({ast.unparse(tab)[:60]}): those terms never pass through Expr.__add__, so a negative or zero multiple is stored as it is "
+                               "and the normal form (positive coefficients, one polarity per variable) is lost", lineno=c.lineno)
+    ctx.require(n >= 2, f"constructions Expr(c, table) fewer than confirmed ({n})")
